@@ -306,6 +306,7 @@ func c01Sequence(parts []*ref.Program, mask []bool) core.Verdict {
 
 func checkC01(c *core.Ctx) {
 	defer sweepC01(c)
+	defer selfCases(c, true, "elementwise", "linalg", "move")
 	defer soakC01(c)
 	if c.Shard == 0 && c.Only == "" {
 		if f := refSelftest(); f > 0 {
